@@ -434,5 +434,8 @@ def _compare_repeat(it, dec, ren, note):
             total = total.add(1)
         elif ei["kind"] == "u16":
             total = total.add(2)
+    if r.get("leftover", 0) >= max(total.c, 1):
+        note("L3", "repeat[%s].stop" % f, "the decoder loop stops while up to %d byte(s) of the packet remain, but one entry of self.%s can be as "
+             "short as %d byte(s): the last entries of a valid packet are dropped" % (r["leftover"], f, total.c))
     if adv.c != total.c:
         note("L3", "repeat[%s].advance" % f, "one entry of self.%s occupies %d fixed byte(s) plus its strings, the decoder advances by %d" % (f, total.c, adv.c))
